@@ -318,8 +318,51 @@ def run_validate_races(ctx, res):
                             {"kind": "race", "pair": i, "choices": choices})
 
 
+def verdict_independent_of_gateway_state(res):
+    """Validity is a property of the line and the version, not of what the gateway is doing: invalid twins of a
+    firmware block request (child id not 255, ack 2, node id 256) are refused - no reply, no session change - also
+    while a firmware session of that node is under way (and answered before / after it exactly as the valid one)."""
+    import mysensors
+    from harness.gen.histories import hexw
+    for ver in VERS:
+        for stage in ("idle", "scheduled", "fetching"):
+            sent = []
+
+            class T:
+                can_log = False
+                protocol = None
+
+                def send(self, m):
+                    if m:
+                        sent.append(m)
+            gw = mysensors.BaseAsyncGateway(T(), protocol_version=ver)
+            gw.logic("1;255;0;0;17;" + ver)
+            if stage != "idle":
+                gw.tasks.ota.make_update([1], 1, 1, bytes(range(40)))
+            if stage == "fetching":
+                gw.logic("1;255;4;0;0;" + hexw(1, 1, 8, 0, 0x0102))
+                gw.logic("1;255;4;0;2;" + hexw(1, 1, 0))
+            for bad in ("1;0;4;0;2;", "1;254;4;0;2;", "1;255;4;2;2;", "1;255;4;-1;2;", "256;255;4;0;2;", "1;255;4;0;6;"):
+                line = bad + hexw(1, 1, 1)
+                res.evaluations += 1
+                res.count("logic-state-independence")
+                stores = (dict(gw.tasks.ota.requested), dict(gw.tasks.ota.unstarted), dict(gw.tasks.ota.started))
+                del sent[:]
+                try:
+                    reply = gw.logic(line)
+                except Exception as exc:      # noqa: BLE001
+                    reply = "raised " + type(exc).__name__
+                after = (dict(gw.tasks.ota.requested), dict(gw.tasks.ota.unstarted), dict(gw.tasks.ota.started))
+                if reply is not None or sent or after != stores:
+                    res.violate("invalid-line-accepted-in-a-gateway-state",
+                                f"version {ver}, firmware session {stage}: the invalid line {line!r} had an effect "
+                                f"(reply {reply!r}, sent {sent[:1]}, session stores changed {after != stores})",
+                                {"kind": "logic-state", "ver": ver, "stage": stage, "line": line})
+
+
 def run(ctx, res):
     tables_do_not_depend_on_loaded_versions(res)
+    verdict_independent_of_gateway_state(res)
     run_validate_races(ctx, res)
     cases = corpus_cells(ctx) + grid(ctx) + numeric_version_cells(ctx) + child_cases(ctx)
     jobs = min(16, os.cpu_count() or 4)
@@ -393,6 +436,10 @@ def run(ctx, res):
 
 def replay(ctx, case):
     c = case["case"] if "case" in case else case
+    if c.get("kind") == "logic-state":
+        r = core.Result(ID)
+        verdict_independent_of_gateway_state(r)
+        return {"violations": [v.what for v in r.violations][:3], "violates": bool(r.violations)}
     if c.get("kind") == "race":
         i, n, alone, bad, herr = _race_task(c["pair"])
         return {"pair": RACE_PAIRS[c["pair"]], "alone": alone, "concurrent": bad and bad[1], "violates": bool(bad)}
